@@ -179,11 +179,15 @@ def _job(job, emit):
             ctl = [a for a in wa.args if not a.type.is_numeric()]
             doms = []
             for a in ctl:
-                doms.append(list(range(1, 17)) if a.type == T.size else [False, True] if a.type == T.bool else list(range(0, 8)))
+                doms.append(list(range(1, 33)) if a.type == T.size else [False, True] if a.type == T.bool else list(range(0, 8)))
             sides = []
             combos = list(itertools.product(*doms))
             rng.shuffle(combos)
-            for vals in combos[: job["max_ctl"]]:
+            # sizes beyond one vector (17..32) only where the instruction's assertions admit them; the corners of the
+            # size domain always come first so that the cap keeps them
+            corner = [c for c in combos if all(v in (1, 8, 15, 16, 17, 24, 31, 32, False, True, 0, 7) for v in c)]
+            combos = corner + [c for c in combos if c not in corner]
+            for vals in combos[: job["max_ctl"] + len(corner)]:
                 env = {a.name: v for a, v in zip(ctl, vals)}
                 okp = True
                 for pr in wa.preds:
